@@ -325,6 +325,11 @@ def run(ctx) -> None:
     slicer(ctx)
     tabular(ctx)
     shared.argname_scope(ctx, ('forml.io._input', 'forml.io.layout._internal'), floor=2)
+    # every size or position a Major accessor reports is taken along *its* axis (len of the frame itself is the row count
+    # whatever the orientation)
+    ln = ctx.prog.func('forml.io.layout._internal:Frame.Major.__len__')
+    lret = next((r for r in core.walk_local(ln.node) if isinstance(r, ast.Return)), None)
+    ctx.check(lret is not None and core.src(lret.value).replace(' ', '') in ('len(self.frame.axes[self.axis])', 'self.frame.shape[self.axis]'), 'C15.tabular', ln, 'the length of a row/column accessor is the extent of the frame along its own axis', lret or ln.node, key='major:len-axis')
     # _match_entry is memoised on the (query schema, entry schema) pair and _cast skips on schema equality: both rely on
     # permuted schemas being *different* schemas
     from . import C08
